@@ -5,6 +5,12 @@ sys.path.insert(0, '/verif/lib')
 import props
 
 LEVEL = {
+ "C20": ("Cli.tla gives, per subcommand, the relation between arguments, exit status and outputs: the (rate, frame | block size) -> code identifier tables typed from the documentation (21 + 9 + 1, checked by TLC), documented girths, and what a clean failure is "
+         "(non-zero status, message, no panic, no hang). The binary built from the working tree is bound by trace validation: every dvbs2 / ccsds / ccsds-c2 combination (valid and invalid) with stdout compared, through the canonical alist of what it "
+         "parses to, with the digest of the library's matrix for the identifier the SPEC assigns to the arguments; peg / mackay-neal (incl. --search) against Config::run(seed); systematic judged by Systematic/GF2 operators (C09) on the parsed output; "
+         "encode output bytes against puncture(encode(word)) per complete word; ber result lines (one per Eb/N0, stopping count, FER/BER identities).",
+         "TLC + Json/IOUtils; SHA-256 and parsing of stdout by the harness; library-side references through the public API.",
+         "TLA+ relational specification of the CLI + trace validation of runs of the built binary", "5 C20"),
  "C19": ("CApi.tla states the C interface as relations: a constructor returns NULL iff the file is unreadable, the alist does not parse, the name is not one of Factory!Names, the pattern is not empty-or-0/1-list, or (encoder) the systematic "
          "encoder rejects the matrix; decode returns iterations / -1 and the leading bits of the Rust decoder's word on the depunctured LLRs; encode writes the punctured codeword. The real extern \"C\" symbols are bound by trace validation: they are "
          "called from child processes with write-ahead records (an abort is attributed to its input), through files and strings, f64 and f32 entry points, output lengths 0..n, two interleaved handles, and every call is paired with the public Rust API on fresh objects; TLC evaluates the relations (name membership from the string itself).",
